@@ -29,7 +29,11 @@ def make_bin_array(bins: ArrayLike) -> np.ndarray:
     array([[0, 1],
            [2, 3]])
     """
-    bins = np.asarray(bins)
+    bins = np.array(bins)  # (Never the caller's own array)
+    if bins.dtype.kind in "ub" or (bins.dtype.kind == "i" and bins.dtype.itemsize < 8):
+        bins = bins.astype(np.int64)  # Widths, centres... are computed in the type of the edges
+    elif bins.dtype.kind == "f" and bins.dtype.itemsize < 4:
+        bins = bins.astype(float)
     if bins.ndim == 1:
         # if bins.shape[0] == 0:
         #     raise RuntimeError("Needs at least one bin")
@@ -60,6 +64,10 @@ def to_numpy_bins(bins: ArrayLike) -> np.ndarray:
     edges: all edges
     """
     bins = np.asarray(bins)
+    if bins.dtype.kind in "ub" or (bins.dtype.kind == "i" and bins.dtype.itemsize < 8):
+        bins = bins.astype(np.int64)  # Widths, centres... are computed in the type of the edges
+    elif bins.dtype.kind == "f" and bins.dtype.itemsize < 4:
+        bins = bins.astype(float)
     if bins.ndim == 1:  # Already in the proper format
         return bins
     if not is_consecutive(bins):
